@@ -499,6 +499,8 @@ def c10(ctx, rep):
     SPLIT = ("call", ("global", mod, "_split_line"), (lp,), ())
     n_sub = 0
     for path in A.paths(f_a).paths:
+        if not path.feasible():
+            continue
         r = path.returned()
         w = W(f_a, path.result[2] if path.result else f_a.node)
         guard = path.truth(("compare", ("is",), (("call", ("attr", ("attr", SELF, "sens_regex"), "search"), (lp,), ()), ("const", None))))
@@ -545,11 +547,13 @@ def c10(ctx, rep):
         fresh = ("sub", digest, ("slice", None, ("const", n) if isinstance(n, int) else ("global", mod, "_ANON_SENSITIVE_WORD_LEN"), None))
         memo_get = ("call", ("attr", ("attr", SELF, "sens_word_replacements"), "get"), (wp,), ())
         for path in A.paths(f_g).paths:
+            if not path.feasible():
+                continue
             r = path.returned()
             w = W(f_g, path.result[2] if path.result else f_g.node)
             stores = [e for e, ls in path.stores() if e.kind == "store_sub"]
             if r == memo_get:
-                rep.ob("C10.memo-hit", f_g.name, path.truth(("compare", ("is",), (memo_get, ("const", None)))) is False and not stores, "memo hit returns the stored pseudonym of the same text", w)
+                rep.ob("C10.memo-hit", f_g.name, (path.truth(("compare", ("is",), (memo_get, ("const", None)))) is False or path.truth(memo_get) is True) and not stores, "memo hit returns the stored pseudonym of the same text", w)
             else:
                 ok = r == fresh and len(stores) == 1 and stores[0].a == ("attr", SELF, "sens_word_replacements") and stores[0].b == wp and stores[0].c == fresh
                 rep.ob("C10.pseudonym-keyed", f_g.name, ok, "pseudonym is %s (stores %s); expected md5((salt + matched text).encode()).hexdigest()[:6], memoised under the matched text" % (show(r)[:160], [repr(s)[:80] for s in stores]), w, key="C10.pseudonym-keyed|_get_or_generate_sensitive_word_replacement")
